@@ -586,8 +586,11 @@ def pad_text(text, fmt, size):
 
 
 def file_sizes(lo=64, hi=70000, fixed=(4096, 65536)):
-    """file sizes worth trying: around the constants of the file-reading modules of the CURRENT source, plus fixed ones"""
-    out = set(probe_sizes(FILE_ANCHORS, lo, hi, wide=True))
-    for f in fixed:
-        out.update(x for x in (f - 1, f, f + 1) if lo <= x <= hi)
+    """file sizes worth trying: around the constants of the file-reading modules of the CURRENT source, plus fixed ones.
+    For each such value P: P-1, P, P+1 and P+40 (pad_text puts the padding first, so with P+40 the P-th byte falls inside
+    the content: a reader that treats the first P bytes apart meets the boundary in the middle of the graph)"""
+    out = set()
+    cs = source_constants(FILE_ANCHORS, wide=True)
+    for f in list(fixed) + [c for c in cs if lo <= c <= hi] + [1 << c for c in cs if c <= 40 and lo <= (1 << c) <= hi]:
+        out.update(x for x in (f - 1, f, f + 1, f + 40) if lo <= x <= hi)
     return sorted(out)
